@@ -50,7 +50,7 @@ Theorem C16_rt_ServerRetrievalMethods : codec_rt server_wf c_server.
 Proof. exact (codec_rt_of_ok _ _ ok_server). Qed.
 Theorem C16_rt_Security : forall tb, codec_rt (security_wf tb) (c_security tb).
 Proof. exact (fun tb => codec_rt_of_ok _ _ (ok_security tb)). Qed.
-(* protocol_info absent (see C16_DeviceEngagement_protocol_info_* below) *)
+(* every member in its domain; protocol_info (RFU) any well-formed CBOR value or absent *)
 Theorem C16_rt_DeviceEngagement : forall tb, tables_ok tb -> codec_rt (engagement_wf tb) (c_engagement tb).
 Proof. exact (fun tb H => codec_rt_of_ok _ _ (ok_engagement tb H)). Qed.
 Theorem C16_rt_SessionEstablishment : forall tb, codec_rt (session_establishment_wf tb) (c_session_establishment tb).
@@ -164,6 +164,19 @@ Theorem C16_rt_Mso_norm : forall tb, tables_ok tb -> forall m, mso_wf m ->
   enc (c_mso tb) (mso_norm m) = enc (c_mso tb) m.
 Proof. exact (fun tb Ht m H => conj (mso_rt_norm tb Ht m H) (conj (mso_norm_exact m H) (mso_norm_enc tb m))). Qed.
 
+(* encoding a ValidityInfo never panics (the outcome type has a Panic constructor for the site that
+   used to: OffsetDateTime::to_offset): it succeeds, with the encoding the round-trip theorems are
+   about, exactly when every date has a four-digit UTC year, and returns an error otherwise *)
+Theorem C16_validity_encode_total : forall v,
+  (validity_encodable v = true /\ validity_encode v = EncOk (validity_to_cbor v)) \/
+  (validity_encodable v = false /\ exists e, validity_encode v = EncErr e).
+Proof. exact validity_encode_total. Qed.
+Theorem C16_validity_encode_no_panic : forall v, validity_encode v <> EncPanic.
+Proof. exact validity_encode_no_panic. Qed.
+(* the documented domain is encodable *)
+Theorem C16_validity_wf_encodable : forall v, validity_wf v -> validity_encodable v = true.
+Proof. exact validity_wf_encodable. Qed.
+
 (* ---------- CoseKey <-> JWK ---------- *)
 
 (* every key with an explicit y (EC2 on P-256 / P-384 / P-521 / secp256k1) and every OKP key converts
@@ -176,15 +189,7 @@ Theorem C16_cose_jwk : forall tb, tables_ok tb -> forall k,
   end.
 Proof. exact cose_jwk_rt. Qed.
 
-(* ---------- DeviceEngagement.protocol_info ---------- *)
-
-(* strongest true statement: everything but protocol_info survives; protocol_info comes back as None *)
-Theorem C16_DeviceEngagement_protocol_info_dropped : forall tb, tables_ok tb -> forall e,
-  engagement_wf_but_protocol_info tb e ->
-  dec (c_engagement tb) (enc (c_engagement tb) e) = Some (clear_protocol_info e).
-Proof. exact engagement_rt_drops_protocol_info. Qed.
-
-(* ---------- the full statement fails for protocol_info: a finding ---------- *)
+(* ---------- the hypotheses are inhabited ---------- *)
 
 Ltac ex_tac :=
   repeat match goal with
@@ -209,24 +214,17 @@ Definition ex_engagement (pi : option cbor) : device_engagement :=
   DeviceEngagement (version_bytes gen_tables) (Security 1 ex_key24) (Some ex_methods)
                    (Some (ServerMethods (Some (1, bytes_of_string "https://x", bytes_of_string "tok")) None)) pi.
 
-(* a DeviceEngagement whose every member is in its documented domain, carrying protocol info,
-   does not come back: the serialiser drops key 4 *)
-Theorem C16_DeviceEngagement_protocol_info_refuted :
-  exists e, engagement_wf_but_protocol_info gen_tables e /\ opt_P value_ok (de_protocol_info e) /\
-            dec (c_engagement gen_tables) (enc (c_engagement gen_tables) e) <> Some e.
-Proof.
-  exists (ex_engagement (Some (CText (bytes_of_string "x")))). split; [|split].
-  - ex_tac.
-  - ex_tac.
-  - intro H. vm_compute in H. discriminate H.
-Qed.
-
-(* ---------- the hypotheses are inhabited ---------- *)
-
 Example C16_ex_CoseKey : cose_key_wf ex_key /\ cose_key_wf ex_okp /\ cose_key_wf (EC2 P256K [] (YSign true)).
 Proof. ex_tac. Qed.
-Example C16_ex_DeviceEngagement : engagement_wf gen_tables (ex_engagement None).
+Example C16_ex_DeviceEngagement :
+  engagement_wf gen_tables (ex_engagement None) /\ engagement_wf gen_tables (ex_engagement (Some (CText (bytes_of_string "x")))) /\
+  engagement_wf gen_tables (ex_engagement (Some CNull)).
 Proof. ex_tac. Qed.
+(* an engagement carrying protocol info comes back whole (it did not before fix 7fcb6ed) *)
+Example C16_ex_DeviceEngagement_protocol_info :
+  let e := ex_engagement (Some (CMap [(CUInt 1, CText (bytes_of_string "x"))])) in
+  from_bytes (c_engagement gen_tables) (to_bytes (c_engagement gen_tables) e) = Some e.
+Proof. vm_compute. reflexivity. Qed.
 Example C16_ex_SessionEstablishment : session_establishment_wf gen_tables (SessionEstablishment ex_key24 [1; 2; 3]).
 Proof. ex_tac. Qed.
 Example C16_ex_SessionData :
@@ -268,6 +266,18 @@ Proof. ex_tac. Qed.
 Definition ex_validity : validity_info := ValidityInfo ex_date ex_date (ODT 2025 1 1 0 0 0 0 (-86399)) (Some ex_date).
 Example C16_ex_ValidityInfo : validity_wf ex_validity /\ validity_exact (validity_norm ex_validity).
 Proof. ex_tac. Qed.
+
+(* signed = 9999-12-31T23:59:59-01:00: the decoder accepts it, its UTC form is in year 10000; encoding
+   used to panic inside to_offset and now returns Error::UtcOutOfRange (fix 44219c8) *)
+Definition ex_date_10000 : odt := ODT 9999 12 31 23 59 59 0 (-3600).
+Example C16_ex_validity_utc_out_of_range :
+  parse_rfc3339 (bytes_of_string "9999-12-31T23:59:59-01:00") = Some ex_date_10000 /\
+  o_year (to_utc_trunc ex_date_10000) = 10000%Z /\
+  emit_checked ex_date_10000 = EmitError UtcOutOfRange /\
+  validity_encode (ValidityInfo ex_date_10000 ex_date_utc ex_date_utc None) = EncErr UtcOutOfRange /\
+  (* 0000-01-01T00:00:00+01:00 is in range for the conversion but its UTC year -1 cannot be formatted *)
+  validity_encode (ValidityInfo ex_date_utc (ODT 0 1 1 0 0 0 0 3600) ex_date_utc None) = EncErr UnableToFormatDate.
+Proof. vm_compute. repeat split. Qed.
 
 Definition ex_mso : mso :=
   Mso (bytes_of_string "1.0") SHA256
